@@ -2,7 +2,7 @@
 //!
 //! ops  {"op":"nest_jar","jar":recipe,"nests":[nest..],"via":"value"|"text","text":s,"others":{name:text}?}
 //!          -> {"st":"ok","names":{name:true},"classes":{name:{rows:{key:count},rowseq:[[kind,owner,name,desc]..],ic:[[inner,outer,name,acc]..],
-//!              em:[]|[class,mname,mdesc],res:id,ver:[maj,min],acc:n}},"others":{name:text}} | {"st":"err"}
+//!              em:[]|[class,mname,mdesc],res:id,ver:[maj,min],acc:n}},"others":{name:text},"dirs":[name..],"resIn":{name:id}} | {"st":"err"}
 //!      {"op":"agree","jar":recipe,"nests":[..],"tree":tree}          -> {"st":"ok","jarNames":{..},"mapNames":{..}} | {"st":"err","where":..}
 //!      {"op":"apply"|"undo"|"applyundo","tree":tree,"nests":[..]}    -> {"st":"ok","src":tree with the classes' target names blanked,"v":tree} | {"st":"err"}
 //!      {"op":"remap_nests","tree":tree,"nests":[..]}                 -> {"st":"ok","nests":{cls:nest},"order":[cls..]} | {"st":"err"}
@@ -142,7 +142,7 @@ fn class_facts(name: &str, c: &Value) -> Result<Value> {
 	Ok(f)
 }
 
-fn build_jar(recipe: &Value, others: &Value) -> Result<Vec<(String, Vec<u8>)>> {
+fn build_jar(recipe: &Value, others: &Value, dirs: &Value) -> Result<Vec<(String, Vec<u8>)>> {
 	let mut entries = vec![];
 	for (name, c) in recipe.as_object().context("jar recipe")? {
 		let f = class_facts(name, c)?;
@@ -152,6 +152,7 @@ fn build_jar(recipe: &Value, others: &Value) -> Result<Vec<(String, Vec<u8>)>> {
 	for (name, text) in others.as_object().into_iter().flatten() {
 		entries.push((name.clone(), text.as_str().unwrap_or("").as_bytes().to_vec()));
 	}
+	for d in arr(dirs) { entries.push((d.as_str().unwrap_or("d/").to_owned(), vec![])); }
 	Ok(entries)
 }
 
@@ -187,6 +188,7 @@ fn project_jar(entries: &[(String, Vec<u8>)]) -> Result<Value> {
 	let mut classes = Map::new();
 	let mut names = Map::new();
 	let mut others = Map::new();
+	let mut dirs = vec![];
 	for (name, data) in entries {
 		if let Some(cn) = name.strip_suffix(".class") {
 			let p = project_class(data)?;
@@ -197,15 +199,17 @@ fn project_jar(entries: &[(String, Vec<u8>)]) -> Result<Value> {
 			classes.insert(key, p);
 		} else if !name.ends_with('/') {
 			others.insert(name.clone(), json!(String::from_utf8_lossy(data)));
+		} else {
+			dirs.push(json!(name));
 		}
 	}
-	Ok(json!({"st": "ok", "names": names, "classes": classes, "others": others}))
+	Ok(json!({"st": "ok", "names": names, "classes": classes, "others": others, "dirs": dirs}))
 }
 
 /// Ok((result entries, id of the non-reference content of every input class)) or Err(stage that refused).
 type JarRun = std::result::Result<(Vec<(String, Vec<u8>)>, Value), &'static str>;
 fn run_nest_jar(v: &Value) -> Result<JarRun> {
-	let entries = build_jar(&v["jar"], &v["others"])?;
+	let entries = build_jar(&v["jar"], &v["others"], &v["dirs"])?;
 	let mut res_in = Map::new();
 	for (name, data) in &entries {
 		if let Some(cn) = name.strip_suffix(".class") { res_in.insert(cn.to_owned(), project_class(data)?["res"].clone()); }
@@ -434,7 +438,7 @@ fn node(kind: &str, names: Value, desc: &str, idx: usize, doc: Value, kids: Map<
 
 /// The input jar as the independent parser sees it (rows in their order): part of the *input* of a recorded case.
 fn project_input(recipe: &Value) -> Result<Value> {
-	let entries = build_jar(recipe, &Value::Null)?;
+	let entries = build_jar(recipe, &Value::Null, &Value::Null)?;
 	let mut m = Map::new();
 	for (name, data) in &entries {
 		let mut p = project_class(data)?;
@@ -460,7 +464,8 @@ pub fn gen(seed: u64, n: usize) -> Result<Vec<Value>> {
 				let plain = r.gen_bool(0.9);
 				let nests = gen_nests(&mut r, &w, &recipe, plain, false);
 				let others = if r.gen_bool(0.5) { json!({"META-INF/MANIFEST.MF": "Manifest-Version: 1.0\n", "assets/x.txt": "p/A"}) } else { json!({}) };
-				out.push(json!({"op": "nest_jar", "jar": recipe, "jin": project_input(&recipe)?, "others": others, "via": via, "text": render(&nests), "nests": nests}));
+				let dirs = if r.gen_bool(0.4) { json!(["assets/", "META-INF/"]) } else { json!([]) };
+				out.push(json!({"op": "nest_jar", "jar": recipe, "jin": project_input(&recipe)?, "others": others, "dirs": dirs, "via": via, "text": render(&nests), "nests": nests}));
 			},
 			4 => {
 				let nests = gen_nests(&mut r, &w, &recipe, true, true);
